@@ -51,6 +51,9 @@ EXPLANATION += ' Changed / added: (R3) the two record loops that call set_four_i
 TECHNIQUE += '; whole evaluation of the VASP grid reader for the step vectors'
 EXPLANATION += ' R10: every read of the recorded Molden tags (a membership test, or the set handed to a helper) must stand where no tag can be recorded any more. The VASP grid step vectors (also C04-R5) are read off the cube returned by the whole grid reader on a skew model cell.'
 # --- end metadata round-2 twins
+# --- metadata added after the round-3 refactoring twins
+EXPLANATION += ' R2: the PDB record writers are looked for in dump_one and the helpers it hands the file to. R10: tags may be recorded with `add` or `update`.'
+# --- end metadata round-3 twins
 
 
 def _load_spec():
